@@ -83,7 +83,9 @@ func (m *Module) HandleDagazQuadSample(ctx context.Context, msg hwebsocket.Msg) 
 			// distant sample would panic or exhaust memory. Ignore it.
 			continue
 		}
+		m.state.Mutex.Lock()
 		m.state.SpatialPartition.InsertQuad(quad)
+		m.state.Mutex.Unlock()
 	}
 
 	return nil
@@ -105,7 +107,13 @@ func (m *Module) HandleDagazGetGroundPlane(ctx context.Context, respond hwebsock
 	ray := NewRayFromProtobuf(req.Ray)
 	var quadHit *Quad
 	if ray.From.IsFinite() && ray.To.IsFinite() {
-		quadHit, _ = m.state.SpatialPartition.IntersectQuad(ray)
+		m.state.Mutex.RLock()
+		if hit, _ := m.state.SpatialPartition.IntersectQuad(ray); hit != nil {
+			// copy: the grid may merge into the stored quad once the lock is released
+			hitCopy := *hit
+			quadHit = &hitCopy
+		}
+		m.state.Mutex.RUnlock()
 	}
 
 	if quadHit == nil {
@@ -140,13 +148,15 @@ func (m *Module) HandleDagazGetRegion(ctx context.Context, respond hwebsocket.Re
 			WithTag("msg_type", msg.Type)
 	}
 
-	var regionQuads []*Quad
+	var regionQuadsProtobuf []*dagazpb.Quad
 	if min, max := NewVector3fFromProtobuf(req.Min), NewVector3fFromProtobuf(req.Max); min.IsFinite() && max.IsFinite() {
-		regionQuads = m.state.SpatialPartition.GetRegion(min, max)
-	}
-	regionQuadsProtobuf := make([]*dagazpb.Quad, len(regionQuads))
-	for i := 0; i < len(regionQuads); i++ {
-		regionQuadsProtobuf[i] = regionQuads[i].ToProtobuf()
+		m.state.Mutex.RLock()
+		regionQuads := m.state.SpatialPartition.GetRegion(min, max)
+		regionQuadsProtobuf = make([]*dagazpb.Quad, len(regionQuads))
+		for i := 0; i < len(regionQuads); i++ {
+			regionQuadsProtobuf[i] = regionQuads[i].ToProtobuf()
+		}
+		m.state.Mutex.RUnlock()
 	}
 
 	respond.Send(&dagazpb.DagazGetRegionResponse{
@@ -171,7 +181,9 @@ func (m *Module) HandleDagazGetDebugInfo(ctx context.Context, respond hwebsocket
 			WithTag("msg_type", msg.Type)
 	}
 
+	m.state.Mutex.RLock()
 	debugInfo := m.state.SpatialPartition.GetDebugInfo()
+	m.state.Mutex.RUnlock()
 
 	respond.Send(&dagazpb.DagazGetDebugInfoResponse{
 		Type:           dagazpb.MsgType_MSG_TYPE_DAGAZ_GET_DEBUG_INFO_RESPONSE,
